@@ -48,7 +48,11 @@ class InfoRig(Rig):
         if ev[0] == 'F':
             self.flat.append(list(ev))
             self.stream.append(('refresh', bool(ev[1])))
-            self.mem.refresh(self._done, self._failed if ev[1] else None)
+            self.in_call += 1
+            try:
+                self.mem.refresh(self._done, self._failed if ev[1] else None)
+            finally:
+                self.in_call -= 1
         else:
             raise ValueError(ev)
 
@@ -81,6 +85,7 @@ class InfoRig(Rig):
         else:
             return
         self.log.append([0, rep, (0, None), None])
+        self._maybe_early(len(self.log) - 1)
 
     # ---- state
     def enc_info(self):
